@@ -800,11 +800,16 @@ Fixpoint log2_up_nat (fuel n : nat) : nat :=
 (** allocations after construction allowed for a peak population of [peak] children:
     per group 2 (slots + waker block) + the Vec of groups and, for FuturesOrdered, the heap,
     each growing by doubling *)
-Definition alloc_bound (peak : nat) : nat := 4 * (log2_up_nat (S peak) (S peak) + 3).
+(** the bound of C18_allocations_logarithmic_in_peak (3 per group created, at most log2 peak + 2
+    creations, + 3) and, for FuturesOrdered, of ..._ordered (the heap: one more per doubling + 1) *)
+Definition alloc_bound (ordered : bool) (peak : nat) : nat :=
+  let l := log2_up_nat (S peak) (S peak) in
+  3 * (l + 2) + 3 + (if ordered then l + 1 else 0).
 
 Definition chk_C18_fin (k : trk) : bool :=
   if no_alloc_type (k_type k) then Nat.eqb (k_allocs_after k) 0
-  else if is_unbounded (k_type k) then Nat.leb (k_allocs_after k) (alloc_bound (k_max_held k))
+  else if is_unbounded (k_type k)
+       then Nat.leb (k_allocs_after k) (alloc_bound (match k_type k with TFO => true | _ => false end) (k_max_held k))
   else true.
 Definition chk_C18 (t : trace) : bool := mon_trace no_chk no_end chk_C18_fin trk_init t.
 
